@@ -721,6 +721,11 @@ def explore(
 ) -> List[PathResult]:
     """Run `harness` on every feasible path.  Returns one PathResult per completed/aborted path."""
     stats = stats if stats is not None else Stats()
+    if deadline is None:
+        # inside a worker: never explore past the run's wall budget (what is left is reported as budget-cut)
+        from . import core as _core
+
+        deadline = _core.deadline()
     s = solver()
     stack: List[list] = [[]]
     out: List[PathResult] = []
